@@ -34,8 +34,16 @@ def _sharded_catalogue(runner, stage):
                     runner.collect_part(p["part"])
                 continue
             procs.remove(p)
-            out = p["proc"].stdout.read()
-            err = p["proc"].stderr.read()
+            def _text(stream, path):
+                # bin/check redirects the workers' output to files (older versions: pipes)
+                if stream is not None:
+                    return stream.read()
+                try:
+                    return open(path, errors="replace").read()
+                except OSError:
+                    return ""
+            out = _text(p["proc"].stdout, p["part"] + ".stdout")
+            err = _text(p["proc"].stderr, p["part"] + ".stderr")
             runner.collect_part(p["part"])
             if rc == 0:
                 continue
